@@ -91,6 +91,12 @@ private:
   uint64_t stamp() const;
 };
 
+// relative paths go to simfs (after a chdir into /sim or when switched on explicitly)
+void useSimCwd(bool on);
+// maximum number of bytes one stdio read callback returns (0: unlimited) — short-read fault
+size_t freadChunk();
+void setFreadChunk(std::function<size_t()> f);
+
 // The file system the libc wrappers and the SQLite VFS operate on.
 FS& fs();
 void setFS(std::unique_ptr<FS> f);
